@@ -321,7 +321,7 @@ func ruleQuantizeGuards(w *World, r *RuleResult) {
 func ruleIntegralVariants(w *World, r *RuleResult) {
 	cc := w.conditionConsts()
 	want := cc["Inexact"] | cc["Rounded"]
-	masks := func(f *ssa.Function) []uint64 {
+	masks := func(f *ssa.Function, bound map[*ssa.Parameter]uint64) []uint64 {
 		var out []uint64
 		for _, b := range f.Blocks {
 			for _, in := range b.Instrs {
@@ -331,6 +331,14 @@ func ruleIntegralVariants(w *World, r *RuleResult) {
 				}
 				for _, o := range []ssa.Value{bo.X, bo.Y} {
 					v, isK := condBits(o)
+					if pr, isP := o.(*ssa.Parameter); isP && !isK {
+						if bv, have := bound[pr]; have {
+							if bo.Op == token.AND_NOT && bv == 0 && o == bo.Y {
+								continue // &^ 0 masks nothing
+							}
+							v, isK = bv, true
+						}
+					}
 					if !isK {
 						continue
 					}
@@ -351,11 +359,30 @@ func ruleIntegralVariants(w *World, r *RuleResult) {
 			r.anchorMissing(name)
 			continue
 		}
-		ms := masks(f)
+		// the operation may be a one-line delegation to a helper shared by the two variants, which is told
+		// the flags to ignore: the helper is judged with its Condition parameters bound to the constants
+		top := f
+		bound := map[*ssa.Parameter]uint64{}
+		if h, call := w.soleDelegate(f); h != nil {
+			okBind := true
+			for i, p := range h.Params {
+				if typeIs(p.Type(), apdPath, "Condition") && !isPointer(p.Type()) {
+					if v, isK := condBits(call.Common().Args[i]); isK {
+						bound[p] = v
+					} else {
+						okBind = false
+					}
+				}
+			}
+			if okBind {
+				f = h
+			}
+		}
+		ms := masks(f, bound)
 		key := name + " | flag mask"
 		if strings.HasSuffix(name, "Value") {
 			if len(ms) == 1 && ms[0] == want {
-				r.ok(key, w.pos(f.Pos()), "removes exactly Inexact|Rounded", true)
+				r.ok(key, w.pos(top.Pos()), "removes exactly Inexact|Rounded", true)
 			} else {
 				r.bad(key, w.pos(f.Pos()), fmt.Sprintf("must remove exactly Inexact|Rounded (%#x), removes %#x", want, ms))
 			}
@@ -679,4 +706,44 @@ func (w *World) allSetsAreNaN(f *ssa.Function) bool {
 		}
 	}
 	return n > 0
+}
+
+// soleDelegate: f does nothing but call one unexported in-package function and return its results.
+func (w *World) soleDelegate(f *ssa.Function) (*ssa.Function, *ssa.Call) {
+	if len(f.Blocks) != 1 {
+		return nil, nil
+	}
+	var only *ssa.Call
+	for _, in := range f.Blocks[0].Instrs {
+		switch x := in.(type) {
+		case *ssa.Call:
+			if only != nil {
+				return nil, nil
+			}
+			only = x
+		case *ssa.Store, *ssa.Go, *ssa.Defer:
+			return nil, nil
+		}
+	}
+	if only == nil {
+		return nil, nil
+	}
+	h := callee(only)
+	if h == nil || !w.inPkg(h) || h.Object() == nil || h.Object().Exported() || len(h.Blocks) == 0 {
+		return nil, nil
+	}
+	rt, ok := f.Blocks[0].Instrs[len(f.Blocks[0].Instrs)-1].(*ssa.Return)
+	if !ok {
+		return nil, nil
+	}
+	for _, v := range rt.Results {
+		if ex, isEx := v.(*ssa.Extract); isEx && ex.Tuple == ssa.Value(only) {
+			continue
+		}
+		if v == ssa.Value(only) {
+			continue
+		}
+		return nil, nil
+	}
+	return h, only
 }
